@@ -52,6 +52,15 @@ def report(chk, batch, res, label, extra=None):
             chk.violation('%s|%s|crash' % (label, desc), {'kind': 'program', 'desc': desc, 'line': line, 'wasm_b64z': base64.b64encode(zlib.compress(batch.wasm)).decode(),
                                                        'export': batch.cases[fi].name, 'params': batch.cases[fi].params, 'result': batch.cases[fi].result}, 'implementation crashed/hung: ' + line)
             return False
+        if res.get('stage') == 'compile' and res.get('bad_funcs'):
+            for fi in res['bad_funcs'][:5]:
+                k = fi - len(batch.imports)
+                if 0 <= k < len(batch.cases):
+                    c = batch.cases[k]
+                    chk.violation('%s|compile-error|%s' % (label, c.desc), {'kind': 'program', 'desc': c.desc, 'export': c.name, 'params': c.params, 'result': c.result,
+                                  'inputs': '-', 'stderr': res.get('stderr'), 'imports': [list(i) for i in batch.imports], 'extra': extra,
+                                  'wasm_b64z': base64.b64encode(zlib.compress(batch.wasm)).decode()}, 'generated C does not compile for body: ' + c.desc)
+            return False
         chk.violation(key, {'kind': 'pipeline', 'stage': res.get('stage'), 'stderr': res.get('stderr'), 'cmd': res.get('cmd'),
                             'wasm_b64z': base64.b64encode(zlib.compress(batch.wasm)).decode(), 'extra': extra},
                       'pipeline stage %s failed: %s' % (res.get('stage'), (res.get('stderr') or '')[-300:]))
@@ -77,7 +86,7 @@ def report(chk, batch, res, label, extra=None):
             continue
         seen.add(key)
         chk.violation(key, {'kind': 'program', 'desc': c.desc, 'export': c.name, 'params': c.params, 'result': c.result,
-                            'inputs': inp, 'expected': exp, 'observed': got, 'what': what, 'extra': extra,
+                            'inputs': inp, 'expected': exp, 'observed': got, 'what': what, 'extra': extra, 'imports': [list(i) for i in batch.imports],
                             'wasm_b64z': base64.b64encode(zlib.compress(batch.wasm)).decode(),
                             'how_to_replay': 'bin/check replay <this file>'}, line)
     return True
